@@ -382,7 +382,14 @@ func main() {
 				}
 			default:
 				o = oper{kind: "restart"}
-				if r.Intn(3) == 0 {
+				// a task with auto start disabled is paused by the reload, which releases the idle entity of its target; a
+				// later task of that target would then build a real entity (etcd, MQ), which this harness cannot provide: its
+				// start fails without reading a position, and the armed fault hits another task than in the model
+				aoff := false
+				for _, p := range ops {
+					aoff = aoff || (p.kind == "create" && p.aoff)
+				}
+				if r.Intn(3) == 0 && !aoff {
 					o.fk, o.fn = "pos.get", 1+r.Intn(3)
 				}
 			}
